@@ -45,6 +45,8 @@ type spec struct {
 	Assumptions []string
 	Exhaustive  bool
 	Post        func(r *run)
+	RaceE1      bool // escalate map-routine races to violations
+	RaceE2      bool // escalate sender/sender races below sendPacket to violations
 }
 
 type viol struct {
@@ -387,9 +389,17 @@ func (r *run) ingest(w wlSpec, logp string, shard int) bool {
 	return finished
 }
 
-var reRaceFrame = regexp.MustCompile(`^\s+(github\.com/xelaj/mtproto[/.][^\s(]+)\(`)
+var reAnyFrame = regexp.MustCompile(`^\s{2}(\S+)\(\)\s*$`)
 
-// ingestRaces parses race-detector logs: counts reports, de-duplicates by the pair of first /repo frames.
+func shortFrame(f string) string {
+	f = strings.TrimPrefix(f, "github.com/xelaj/mtproto/")
+	f = strings.TrimPrefix(f, "github.com/xelaj/mtproto.")
+	return f
+}
+
+// ingestRaces parses race-detector logs. A report is keyed by the innermost non-runtime frame of each of
+// its two accesses; reports whose two accesses both sit in harness code are harness defects and are
+// printed as such (they must be fixed, they say nothing about /repo).
 func (r *run) ingestRaces(base string) {
 	files, _ := filepath.Glob(base + ".race.*")
 	for _, f := range files {
@@ -401,27 +411,72 @@ func (r *run) ingestRaces(base string) {
 			if !strings.Contains(blk, "WARNING: DATA RACE") {
 				continue
 			}
-			// split the block into stacks (separated by blank lines); keep first /repo frame of the first two stacks
-			var firsts []string
+			var tops []string
+			var mapRoutine []bool
 			for _, st := range strings.Split(blk, "\n\n") {
-				if len(firsts) >= 2 {
+				lines := strings.Split(strings.TrimSpace(st), "\n")
+				if len(lines) < 2 || len(tops) >= 2 {
+					continue
+				}
+				hdr := lines[0]
+				if strings.HasPrefix(hdr, "WARNING") && len(lines) > 1 {
+					hdr = lines[1]
+					lines = lines[1:]
+				}
+				if !(strings.Contains(hdr, " by goroutine") || strings.Contains(hdr, " by main goroutine")) || strings.HasPrefix(hdr, "Goroutine") {
+					continue
+				}
+				top := ""
+				isMap := false
+				for _, ln := range lines[1:] {
+					m := reAnyFrame.FindStringSubmatch(ln)
+					if m == nil {
+						continue
+					}
+					if strings.HasPrefix(m[1], "runtime.map") {
+						isMap = true
+					}
+					if strings.HasPrefix(m[1], "runtime.") || strings.HasPrefix(m[1], "sync.") || strings.HasPrefix(m[1], "sync/atomic.") {
+						continue
+					}
+					top = m[1]
 					break
 				}
-				for _, ln := range strings.Split(st, "\n") {
-					if m := reRaceFrame.FindStringSubmatch(ln); m != nil && !strings.Contains(m[1], "/zverif/") {
-						firsts = append(firsts, strings.TrimPrefix(strings.TrimPrefix(m[1], "github.com/xelaj/mtproto/"), "github.com/xelaj/mtproto."))
-						break
-					}
+				tops = append(tops, top)
+				mapRoutine = append(mapRoutine, isMap)
+			}
+			harness := len(tops) > 0
+			for _, t := range tops {
+				if !strings.Contains(t, "/zverif/") {
+					harness = false
 				}
 			}
-			sort.Strings(firsts)
-			key := strings.Join(firsts, " <-> ")
-			if key == "" {
-				key = "(no /repo frame)"
+			for i := range tops {
+				tops[i] = shortFrame(tops[i])
+			}
+			sort.Strings(tops)
+			key := strings.Join(tops, " <-> ")
+			if harness {
+				key = "HARNESS " + key
+			}
+			if len(mapRoutine) == 2 && mapRoutine[0] && mapRoutine[1] {
+				key = "MAP " + key
 			}
 			r.mu.Lock()
 			r.races[key]++
 			r.mu.Unlock()
+			// the two narrow escalations of DESIGN.md section 7
+			if harness {
+				continue
+			}
+			if len(mapRoutine) == 2 && mapRoutine[0] && mapRoutine[1] && r.sp.RaceE1 {
+				r.addViol(&viol{Prop: r.sp.ID, Sig: "race/E1-concurrent-map-access/" + key, Workload: "race-detector",
+					Detail: "the race detector saw two unsynchronised accesses inside the runtime's map routines reached from /repo code: concurrent map access is memory-unsafe and aborts the process when the runtime notices\n" + wkShort(blk, 3000)})
+			}
+			if r.sp.RaceE2 && strings.Count(blk, ".(*MTProto).sendPacket()") >= 2 && !strings.Contains(blk, ".(*MTProto).processResponse()") && !strings.Contains(blk, "startReadingResponses") {
+				r.addViol(&viol{Prop: r.sp.ID, Sig: "race/E2-two-senders-inside-the-send-path/" + key, Workload: "race-detector",
+					Detail: "two senders race inside what the send lock exists to serialise\n" + wkShort(blk, 3000)})
+			}
 		}
 	}
 }
